@@ -20,6 +20,8 @@ MANIFEST = dict(
     category="proof",
     text="proof (partial). Machine-checked (Coq): (1) C15_string_escape — for ALL strings, the echo's escape_numbat_string "
          "followed by the parser's strip_and_escape is the identity (string literals and, since the fix, decorator strings); "
+         "C15_lex_string_echo / C15_lex_interp_echo — the echoed text of ANY string (and of the parts of an interpolated string) "
+         "is exactly one string token of the tokenizer model with that lexeme, for any Unicode classes; "
          "(2) C15_roundtrip_partial / C15_roundtrip_exact — over a Gallina model of the expression echo (typed_ast.rs "
          "PrettyPrint for Expression and StringPart, pretty_print_binop, with_parens, with_parens_liberal, call_syntax, temperature sugar), "
          "for EVERY printable typed expression of any depth the echoed tokens form a well-formed derivation tree of the "
@@ -50,7 +52,8 @@ MANIFEST = dict(
 )
 
 THEOREMS = ["C15_string_escape", "C15_roundtrip_partial", "C15_roundtrip_exact", "C15_fixed_point_partial",
-            "C15_decorator_echo", "C15_definition_echo_partial", "C15_reassociation_refuted"]
+            "C15_lex_string_echo", "C15_lex_interp_echo", "C15_decorator_echo", "C15_definition_echo_partial",
+            "C15_reassociation_refuted"]
 ALLOWED_AXIOMS = []
 EXTRA_VO = ["theories/Syntax/ExecTyped.vo"]
 MODEL_IMPORTS = ["Syntax.Ast", "Syntax.StmtAst", "Syntax.TypedPrinter", "Syntax.TypeGrammar", "Syntax.DefEcho", "Syntax.ExecTyped"]
